@@ -495,6 +495,7 @@ _R = ', '.join([f'{_A}={_B:.2g}' for _A, _B in zip(_N[:_L], array[:_L])])
     R = prog.cls('results', 'RawResults')
     f = R.methods['__init__']
     ok = has(f.node, 'self.betaNames = the_model.id_manager.free_betas.names') and has(f.node, """
+self.betas = []
 for _V, _N in zip(beta_values, self.betaNames):
     _B = the_model.get_bounds_on_beta(_N)
     self.betas.append(Beta(_N, _V, _B))
